@@ -79,21 +79,43 @@ func vStub___os_File__Close(f *os.File) error                  { return fStd.Clo
 
 type fFile struct {
 	afero.File
-	rec *fRec
+	fs  *fFs
+	pos int
 }
 
-func (f fFile) Write(p []byte) (int, error) { return f.rec.Write(p) }
-func (f fFile) Close() error                { return f.rec.Close() }
+// (a file on a file system: what is written replaces the bytes at the write position and extends
+// the file; bytes beyond what was written stay unless the file was truncated when it was opened)
+func (f *fFile) Write(p []byte) (int, error) {
+	for _, b := range p {
+		if f.pos < len(f.fs.content) {
+			f.fs.content[f.pos] = b
+		} else {
+			f.fs.content = append(f.fs.content, b)
+		}
+		f.pos++
+	}
+	return f.fs.rec.Write(p)
+}
+func (f *fFile) Close() error { return f.fs.rec.Close() }
 
 type fFs struct {
 	afero.Fs
 	rec     *fRec
 	created []string
+	content []byte
 }
 
 func (fs *fFs) Create(name string) (afero.File, error) {
 	fs.created = append(fs.created, name)
-	return fFile{rec: fs.rec}, nil
+	fs.content = nil
+	return &fFile{fs: fs}, nil
+}
+func (fs *fFs) OpenFile(name string, flag int, perm os.FileMode) (afero.File, error) {
+	fs.created = append(fs.created, name)
+	if flag&os.O_TRUNC != 0 {
+		fs.content = nil
+	}
+	return &fFile{fs: fs}, nil
 }
 
 func HarnessC06PhoutConstructed() {
@@ -103,6 +125,10 @@ func HarnessC06PhoutConstructed() {
 	fStd = fRec{}
 	rec := &fRec{}
 	fs := &fFs{rec: rec}
+	if vNondetBool("destinationExists") {
+		// the result file of an earlier, longer run
+		fs.content = []byte(strings.Repeat("0000000000.000\told\t1\t2\t3\t4\t5\t6\t7\t8\t0\t200\n", 8))
+	}
 	conf := DefaultPhoutConfig()
 	conf.SampleQueueSize = 2
 	conf.Buffer.BufferSize = 1 // (the minimal buffer: 4 KiB)
@@ -147,6 +173,9 @@ func HarnessC06PhoutConstructed() {
 	cancel()
 	wgRun.Wait()
 	lines := rec.newlines
+	if !toStdout {
+		lines = strings.Count(string(fs.content), "\n") // what the result file holds after the run
+	}
 	if toStdout && vNative() {
 		b, err := os.ReadFile(tmp.Name())
 		if err != nil {
